@@ -52,7 +52,8 @@ class TomlArgumentType(Enum):
             return isinstance(value, bool)
 
         if self == TomlArgumentType.int:
-            return isinstance(value, int)
+            # NOTE In Python `bool` is a subclass of `int`, in toml it is not
+            return isinstance(value, int) and not isinstance(value, bool)
 
         if self == TomlArgumentType.string:
             return isinstance(value, str)
